@@ -22,3 +22,13 @@ package client
 //@   loop 1 invariant others: forall h string :: inDom(b.forwardingGroups, h) ==> b.forwardingGroups[h] != nil && b.forwardingGroups[h] != ref(b.directGroup) && b.forwardingGroups[h].req != b.directGroup.req && b.forwardingGroups[h].req != nil
 //@   loop 1 step fresh: len(b.directGroup.entries) == prev(len(b.directGroup.entries)) + 1 ==> b.idAlloc == uint64(prev(b.idAlloc) + 1) && b.directGroup.req.RequestIds[len(b.directGroup.req.RequestIds)-1] == b.idAlloc
 //@   ensures aligned: alignedDirect(b)
+
+// Responses are dispatched by request id: what an entry is handed is a response the store paired - by position in the
+// batch response - with the very id the entry was found under, and the entry is the one registered under that id.
+//@ func (*batchCommandsClient) batchRecvLoop
+//@   prop C18
+//@   may-panic
+//@   loop 1 invariant outer: true
+//@   loop 2 invariant inner: true
+//@   at call(response) assert entry: recv == sync.smVal(ref(c.batched), requestID).(*batchCommandsEntry)
+//@   at call(response) assert paired: exists j int :: 0 <= j && j < len(resp.RequestIds) && j < len(responses) && resp.RequestIds[j] == requestID && arg_resp == responses[j]
